@@ -558,8 +558,25 @@ type c10structErr struct {
 
 func (e c10structErr) Error() string { return strings.Join(e.parts, "") }
 
+// Hostile error values: a typed-nil pointer whose Error method dereferences
+// it, and a value whose Error method panics outright. What a report of such a
+// failure says is not judged (there is no text to look for); that the logging
+// call returns normally and every other destination receives the entry is.
+type c10ptrErr struct{ text string }
+
+func (e *c10ptrErr) Error() string { return e.text }
+
+type c10panicErr struct{}
+
+func (c10panicErr) Error() string { panic("c10: the Error method of a sink's error panics") }
+
 func c10mkErr(kind int, text string) error {
 	switch kind {
+	case 3:
+		var e *c10ptrErr
+		return e
+	case 4:
+		return c10panicErr{}
 	case 1:
 		return c10sliceErr{text[:len(text)/2], text[len(text)/2:]}
 	case 2:
@@ -600,7 +617,8 @@ func runC10(c *Ctx) {
 	nBranch := 1 + g.Weighted(2, 3, 2, 1)
 	var branches []*c10branch
 	var cores []zapcore.Core
-	errKind := f.Weighted(4, 1, 1)
+	errKind := f.Weighted(8, 2, 2, 1, 1)
+	hostileErr := errKind >= 3
 	for b := 0; b < nBranch; b++ {
 		br := &c10branch{kind: g.Weighted(5, 2, 1), errText: fmt.Sprintf("branch-%d-failure", b)}
 		br.failing = f.Chance(3)
@@ -745,7 +763,7 @@ func runC10(c *Ctx) {
 				func() {
 					defer func() {
 						if p := recover(); p != nil {
-							sig := "C10: a field failure escaped the logging call as a panic"
+							sig := "C10: a field or sink failure escaped the logging call as a panic"
 							if s := fmt.Sprint(p); strings.Contains(s, "nil pointer") && c10hasNilElem(e) {
 								sig = "C10: a nil element inside zap.Stringers panics out of the logging call"
 							}
@@ -875,6 +893,13 @@ func runC10(c *Ctx) {
 		if e.direct {
 			for _, br := range branches {
 				if br.failing && (br.mode == 0 || br.mode == 1 || br.mode == 4) {
+					if hostileErr {
+						if e.err == nil {
+							c.Fail("C10: Write on a tee does not return the errors of all its failing cores", "entry %d written directly to the tee: returned nil although a branch failed", e.id)
+							return
+						}
+						continue
+					}
 					if e.err == nil || !strings.Contains(e.err.Error(), br.errText) {
 						c.Fail("C10: Write on a tee does not return the errors of all its failing cores", "entry %d written directly to the tee: returned %v, branch error %q missing", e.id, e.err, br.errText)
 						return
@@ -918,6 +943,10 @@ func runC10(c *Ctx) {
 		// the report's wording and layout are zap's business: what is asked is
 		// that the failure (its error text) shows up once for every entry it hit
 		got := strings.Count(string(errOut.Data), br.errText)
+		if hostileErr {
+			// no text to look for: a report line per failed entry, whatever it says
+			got = strings.Count(string(errOut.Data), "\n")
+		}
 		if got < want {
 			c.Fail("C10: a failing sink or core was not reported on the error output once per affected entry", "branch %d (%s, mode %d, %q): %d entries failed there, the error output mentions the failure %d times; error output: %q", bi, []string{"Lock", "Combine", "custom-core"}[br.kind], br.mode, br.errText, want, got, clip(errOut.Data))
 			return
